@@ -407,4 +407,23 @@ example : ∃ st' st'', stepDocs { doc := exDoc } (exActs.map (·, true)) = .ok 
     rollback_restores (st := { doc := exDoc }) exDoc_WF exDoc_Normal rfl hargs hex h
   exact ⟨_, st'', h, rfl, rfl, h1, h2, h3, h4, h5⟩
 
+/-! ### Why the ORDER of an undo list matters when a column changes type (repo commit 4ed88e3) -/
+
+/-- `0.0` is stored as it is by a Numeric column (a fixpoint of that column's `set`), but a Bool column stores `False`
+    for it, and writing that back into the Numeric column does not bring `0.0` back.  An undo action that writes the
+    old values while the column still has the NEW type therefore cannot restore them: it has to run after the
+    `ModifyColumn` that gives the column its old type back.  (As in C09, `pureType` of a literal is a hypothesis:
+    `String.splitOn` does not evaluate in the kernel; the driver evaluates it, and the engine-side replay of the
+    recorded history in harness/gx/corpus/C01/fixed-4ed88e3.json exercises exactly this situation on every run.) -/
+theorem colSet_depends_on_type (tn tb : String) (hn : pureType tn = "Numeric") (hb : pureType tb = "Bool") :
+    colSet tn (.flt "0.0") = .flt "0.0" ∧ colSet tb (.flt "0.0") = .bool false ∧
+    colSet tn (colSet tb (.flt "0.0")) ≠ .flt "0.0" := by
+  refine ⟨?_, ?_, ?_⟩ <;> simp [colSet, hn, hb, isNumericLike]
+
+/-- the direction the repair relies on: written back under the OLD type, an old value is restored exactly whenever
+    it was a fixpoint of that type's `set` (the `Normal` invariant of the document before the bundle) -/
+theorem setCell_restores_under_old_type (t : String) (v : Val) (h : colSet t v = v) (f : Nat → Val) (r : Nat) :
+    setCell f r (colSet t v) r = v := by
+  simp [setCell, h]
+
 end Grist.Doc
